@@ -33,6 +33,15 @@ def stack_fn(i, s):
         o.append("      if (!vp::cfg_same_bits(f1%s.get_configuration(), want) || !vp::cfg_same_bits(r1%s.get_configuration(), want)) R.viol(\"%s\", \"layer %d (%s) constructed with extreme configuration values reports different ones  [%s]\", \"%s layer%d extreme\"); }" % (
             ch, ch, key, idx, s.layers[idx].kind, name, name, idx))
     o.append("  }")
+    # third assignment: an empty field (first extent 0, zero stored cells beneath a storage order) - read-back only
+    v3 = g.with_cfgvar(s, 3)
+    o.append("  { covfie::field<B> f3 = %s;" % (v3.make_for_expr() if v3.depth() <= 10 else v3.make_expr()))
+    for idx in range(s.depth()):
+        ch = ".backend()" + ".get_backend()" * idx
+        o.append("    { typename %s::configuration_t want = %s; ++R.transitions;" % (s.cpp_type(idx), v3.cfg_expr(idx)))
+        o.append("      if (!vp::cfg_same_bits(f3%s.get_configuration(), want)) R.viol(\"%s\", \"layer %d (%s) of an empty field reports a configuration different from the one it was constructed with  [%s]\", \"%s layer%d empty\"); }" % (
+            ch, key, idx, s.layers[idx].kind, name, name, idx))
+    o.append("  }")
     o.append("  covfie::field<B> rb(covfie::make_parameter_pack(vp::rebuild<B>(f.backend())));")
     o.append("  vp::same_field<B>(R, f, rb, d, %d, %s, \"%s\", \"%s\");" % (s.depth(), "true" if s.serialisable() else "false", name, key))
     o.append("  ++R.states;")
@@ -110,7 +119,7 @@ def run(ctx):
         "non-trivial = stacks with a non-empty coordinate domain; transitions = (stack, layer) configuration read-backs",
         {"stacks": len(stacks), "plan": [[list(nm), d] for nm, d in plan]})
     ctx.cov["configuration_readbacks"] = total.get("transitions", 0)
-    ctx.assumptions += ["two configuration assignments per stack (pairwise distinct ordinary values; extreme / special values read back bit for bit), not all values of every configuration type"]
+    ctx.assumptions += ["three configuration assignments per stack (pairwise distinct ordinary values; extreme / special values and an empty field read back bit for bit), not all values of every configuration type"]
 
 
 def replay(ctx, rp):
